@@ -44,9 +44,6 @@ def run(ck, ctx):
         ok_ret = res.op == "BinOp" and res.attr == "Pow" and res.args[0].op == "Const" and res.args[0].attr == 10
         ck.ob("R05.1", "exit probability == 10 ** (log-domain array)", ok_ret, res, func, g.show(res, 2))
         arr = res.args[1] if ok_ret else res
-        base, chain = scatter_chain(arr)
-        if not chain:
-            raise AnalysisError("cannot identify the result array of Taus.tau_exit_prob")
         ctors = [n for n in walk([res]) if is_ext_call(n, "scipy.interpolate.RegularGridInterpolator")]
         ck.floor("R05.1", len(ctors), 1, "RegularGridInterpolator constructions")
         data_nodes = []
@@ -58,9 +55,17 @@ def run(ck, ctx):
                   g.show(vals, 2) if vals is not None else "?")
             if okl:
                 data_nodes.append(vals.args[1])
-            bad = [k for k in kws if k in ("bounds_error", "fill_value")]
+            # the interpolator validates BOTH coordinates: switching the check off for the angle switches it off
+            # for the energy as well
+            be = kws.get("bounds_error", pos[3] if len(pos) > 3 else None)
+            off = be is not None and not (be.op == "Const" and be.attr is True)
             ck.ob("R05.4", "RegularGridInterpolator keeps its bounds check (energies outside the table raise)",
-                  not bad, c, func, f"keywords: {sorted(kws)}")
+                  not off, c, func, f"keywords: {sorted(kws)}" + (": bounds_error is not True, so energies outside the "
+                  "table are extrapolated / filled instead of rejected" if off else ""),
+                  construct=f"{func}: interpolator bounds check switched off")
+        base, chain = scatter_chain(arr)
+        if not chain:
+            raise AnalysisError("cannot identify the result array of Taus.tau_exit_prob")
         floors = []
         for sc in chain:
             v = sc.args[2]
